@@ -143,11 +143,17 @@ main(int argc, char **argv)
   if (outfmt == eslSQFILE_UNKNOWN) 
     esl_fatal("%s is not a recognized output seqfile format\n", esl_opt_GetArg(go, 1));
 
+  if (! esl_sqio_IsAlignment(outfmt) && outfmt != eslSQFILE_FASTA && outfmt != eslSQFILE_HMMPGMD)
+    esl_fatal("%s is an input-only format; unaligned output can be written as fasta or hmmpgmd\n", esl_opt_GetArg(go, 1));
+
   infile = esl_opt_GetArg(go, 2);
 
   if (esl_opt_IsOn(go, "--informat") && 
       (infmt = esl_sqio_EncodeFormat(esl_opt_GetString( go, "--informat"))) == eslSQFILE_UNKNOWN)
     esl_fatal("%s is not a recognized input seqfile format\n", esl_opt_GetString(go, "--informat"));
+  if (esl_sqio_IsAlignment(outfmt) && infmt != eslSQFILE_UNKNOWN && ! esl_sqio_IsAlignment(infmt))
+    esl_fatal("Output format %s is an alignment format; the input (--informat %s) must be an alignment format too\n",
+	      esl_opt_GetArg(go, 1), esl_opt_GetString(go, "--informat"));
 
   force_dna   = esl_opt_GetBoolean(go, "-d");
   force_lower = esl_opt_GetBoolean(go, "-l");
